@@ -852,7 +852,15 @@ class Database:
         # set the spatialLocators on each component
         if location is not None:
             if parent is not None and parent.spatialGrid is not None:
-                comp.spatialLocator = parent.spatialGrid[location]
+                if isinstance(location, tuple) and not all(
+                    isinstance(i, int) for i in location
+                ):
+                    # free coordinates (stored as a coordinate location) within the parent's grid
+                    comp.spatialLocator = grids.CoordinateLocation(
+                        location[0], location[1], location[2], parent.spatialGrid
+                    )
+                else:
+                    comp.spatialLocator = parent.spatialGrid[location]
             else:
                 comp.spatialLocator = grids.CoordinateLocation(
                     location[0], location[1], location[2], None
